@@ -144,6 +144,13 @@ theorem keys_are_lru (ops : JarOps J U SC C) (cfg : Cfg) (cap : Nat) (h : List (
     keys (run ops cfg { cap := cap, entries := [] } h) = Lru.after cap (touches cfg h) := by
   exact (run_inv ops cfg cap h).2.2
 
+/-- the cache never holds more than `cap` sessions — for every history of requests and responses, with or without
+    session cookies -/
+theorem cache_bounded (ops : JarOps J U SC C) (cfg : Cfg) (cap : Nat) (hc : 0 < cap) (h : List (Op U SC)) :
+    (keys (run ops cfg { cap := cap, entries := [] } h)).length ≤ cap := by
+  rw [keys_are_lru, Lru.after_eq_take_recency cap hc, List.length_take]
+  exact Nat.min_le_left _ _
+
 /-- Refinement to the per-session jar map: as long as every session is touched again
     before `cap` other distinct sessions were (the "among the most recently used" clause),
     the jar used for a session is exactly an independent jar fed with that session's own
